@@ -303,30 +303,84 @@ func (c *ctx) decodeJSON(data []byte) {
 	c.call("geojson.UnmarshalGeometry", n, func() { _, err := geojson.UnmarshalGeometry(data); c.mix(50, err == nil) })
 	c.call("geojson.UnmarshalFeature", n, func() { _, err := geojson.UnmarshalFeature(data); c.mix(51, err == nil) })
 	c.call("geojson.UnmarshalFeatureCollection", n, func() { _, err := geojson.UnmarshalFeatureCollection(data); c.mix(52, err == nil) })
-	c.call("json.Unmarshal(*geojson.Geometry)", n, func() { err := json.Unmarshal(data, c.recv("geojson.Geometry", func() interface{} { return &geojson.Geometry{} }).(*geojson.Geometry)); c.mix(53, err == nil) })
-	c.call("json.Unmarshal(*geojson.Feature)", n, func() { err := json.Unmarshal(data, c.recv("geojson.Feature", func() interface{} { return &geojson.Feature{} }).(*geojson.Feature)); c.mix(54, err == nil) })
-	c.call("json.Unmarshal(*geojson.FeatureCollection)", n, func() { err := json.Unmarshal(data, c.recv("geojson.FeatureCollection", func() interface{} { return &geojson.FeatureCollection{} }).(*geojson.FeatureCollection)); c.mix(55, err == nil) })
-	c.call("geojson.Point.UnmarshalJSON", n, func() { err := c.recv("geojson.Point", func() interface{} { return &geojson.Point{} }).(*geojson.Point).UnmarshalJSON(data); c.mix(56, err == nil) })
-	c.call("geojson.MultiPoint.UnmarshalJSON", n, func() { err := c.recv("geojson.MultiPoint", func() interface{} { return &geojson.MultiPoint{} }).(*geojson.MultiPoint).UnmarshalJSON(data); c.mix(57, err == nil) })
-	c.call("geojson.LineString.UnmarshalJSON", n, func() { err := c.recv("geojson.LineString", func() interface{} { return &geojson.LineString{} }).(*geojson.LineString).UnmarshalJSON(data); c.mix(58, err == nil) })
-	c.call("geojson.MultiLineString.UnmarshalJSON", n, func() { err := c.recv("geojson.MultiLineString", func() interface{} { return &geojson.MultiLineString{} }).(*geojson.MultiLineString).UnmarshalJSON(data); c.mix(59, err == nil) })
-	c.call("geojson.Polygon.UnmarshalJSON", n, func() { err := c.recv("geojson.Polygon", func() interface{} { return &geojson.Polygon{} }).(*geojson.Polygon).UnmarshalJSON(data); c.mix(60, err == nil) })
-	c.call("geojson.MultiPolygon.UnmarshalJSON", n, func() { err := c.recv("geojson.MultiPolygon", func() interface{} { return &geojson.MultiPolygon{} }).(*geojson.MultiPolygon).UnmarshalJSON(data); c.mix(61, err == nil) })
+	c.call("json.Unmarshal(*geojson.Geometry)", n, func() {
+		err := json.Unmarshal(data, c.recv("geojson.Geometry", func() interface{} { return &geojson.Geometry{} }).(*geojson.Geometry))
+		c.mix(53, err == nil)
+	})
+	c.call("json.Unmarshal(*geojson.Feature)", n, func() {
+		err := json.Unmarshal(data, c.recv("geojson.Feature", func() interface{} { return &geojson.Feature{} }).(*geojson.Feature))
+		c.mix(54, err == nil)
+	})
+	c.call("json.Unmarshal(*geojson.FeatureCollection)", n, func() {
+		err := json.Unmarshal(data, c.recv("geojson.FeatureCollection", func() interface{} { return &geojson.FeatureCollection{} }).(*geojson.FeatureCollection))
+		c.mix(55, err == nil)
+	})
+	c.call("geojson.Point.UnmarshalJSON", n, func() {
+		err := c.recv("geojson.Point", func() interface{} { return &geojson.Point{} }).(*geojson.Point).UnmarshalJSON(data)
+		c.mix(56, err == nil)
+	})
+	c.call("geojson.MultiPoint.UnmarshalJSON", n, func() {
+		err := c.recv("geojson.MultiPoint", func() interface{} { return &geojson.MultiPoint{} }).(*geojson.MultiPoint).UnmarshalJSON(data)
+		c.mix(57, err == nil)
+	})
+	c.call("geojson.LineString.UnmarshalJSON", n, func() {
+		err := c.recv("geojson.LineString", func() interface{} { return &geojson.LineString{} }).(*geojson.LineString).UnmarshalJSON(data)
+		c.mix(58, err == nil)
+	})
+	c.call("geojson.MultiLineString.UnmarshalJSON", n, func() {
+		err := c.recv("geojson.MultiLineString", func() interface{} { return &geojson.MultiLineString{} }).(*geojson.MultiLineString).UnmarshalJSON(data)
+		c.mix(59, err == nil)
+	})
+	c.call("geojson.Polygon.UnmarshalJSON", n, func() {
+		err := c.recv("geojson.Polygon", func() interface{} { return &geojson.Polygon{} }).(*geojson.Polygon).UnmarshalJSON(data)
+		c.mix(60, err == nil)
+	})
+	c.call("geojson.MultiPolygon.UnmarshalJSON", n, func() {
+		err := c.recv("geojson.MultiPolygon", func() interface{} { return &geojson.MultiPolygon{} }).(*geojson.MultiPolygon).UnmarshalJSON(data)
+		c.mix(61, err == nil)
+	})
 	c.call("geojson.BBox(json)", n, func() { var b geojson.BBox; err := json.Unmarshal(data, &b); c.mix(62, err == nil) })
 }
 
 func (c *ctx) decodeBSON(data []byte) {
 	n := len(data)
 	// always through orb's own methods, so every reported panic has an orb frame under it
-	c.call("geojson.Geometry.UnmarshalBSON", n, func() { err := c.recv("geojson.Geometry", func() interface{} { return &geojson.Geometry{} }).(*geojson.Geometry).UnmarshalBSON(data); c.mix(70, err == nil) })
-	c.call("geojson.Feature.UnmarshalBSON", n, func() { err := c.recv("geojson.Feature", func() interface{} { return &geojson.Feature{} }).(*geojson.Feature).UnmarshalBSON(data); c.mix(71, err == nil) })
-	c.call("geojson.FeatureCollection.UnmarshalBSON", n, func() { err := c.recv("geojson.FeatureCollection", func() interface{} { return &geojson.FeatureCollection{} }).(*geojson.FeatureCollection).UnmarshalBSON(data); c.mix(72, err == nil) })
-	c.call("geojson.Point.UnmarshalBSON", n, func() { err := c.recv("geojson.Point", func() interface{} { return &geojson.Point{} }).(*geojson.Point).UnmarshalBSON(data); c.mix(73, err == nil) })
-	c.call("geojson.MultiPoint.UnmarshalBSON", n, func() { err := c.recv("geojson.MultiPoint", func() interface{} { return &geojson.MultiPoint{} }).(*geojson.MultiPoint).UnmarshalBSON(data); c.mix(74, err == nil) })
-	c.call("geojson.LineString.UnmarshalBSON", n, func() { err := c.recv("geojson.LineString", func() interface{} { return &geojson.LineString{} }).(*geojson.LineString).UnmarshalBSON(data); c.mix(75, err == nil) })
-	c.call("geojson.MultiLineString.UnmarshalBSON", n, func() { err := c.recv("geojson.MultiLineString", func() interface{} { return &geojson.MultiLineString{} }).(*geojson.MultiLineString).UnmarshalBSON(data); c.mix(76, err == nil) })
-	c.call("geojson.Polygon.UnmarshalBSON", n, func() { err := c.recv("geojson.Polygon", func() interface{} { return &geojson.Polygon{} }).(*geojson.Polygon).UnmarshalBSON(data); c.mix(77, err == nil) })
-	c.call("geojson.MultiPolygon.UnmarshalBSON", n, func() { err := c.recv("geojson.MultiPolygon", func() interface{} { return &geojson.MultiPolygon{} }).(*geojson.MultiPolygon).UnmarshalBSON(data); c.mix(78, err == nil) })
+	c.call("geojson.Geometry.UnmarshalBSON", n, func() {
+		err := c.recv("geojson.Geometry", func() interface{} { return &geojson.Geometry{} }).(*geojson.Geometry).UnmarshalBSON(data)
+		c.mix(70, err == nil)
+	})
+	c.call("geojson.Feature.UnmarshalBSON", n, func() {
+		err := c.recv("geojson.Feature", func() interface{} { return &geojson.Feature{} }).(*geojson.Feature).UnmarshalBSON(data)
+		c.mix(71, err == nil)
+	})
+	c.call("geojson.FeatureCollection.UnmarshalBSON", n, func() {
+		err := c.recv("geojson.FeatureCollection", func() interface{} { return &geojson.FeatureCollection{} }).(*geojson.FeatureCollection).UnmarshalBSON(data)
+		c.mix(72, err == nil)
+	})
+	c.call("geojson.Point.UnmarshalBSON", n, func() {
+		err := c.recv("geojson.Point", func() interface{} { return &geojson.Point{} }).(*geojson.Point).UnmarshalBSON(data)
+		c.mix(73, err == nil)
+	})
+	c.call("geojson.MultiPoint.UnmarshalBSON", n, func() {
+		err := c.recv("geojson.MultiPoint", func() interface{} { return &geojson.MultiPoint{} }).(*geojson.MultiPoint).UnmarshalBSON(data)
+		c.mix(74, err == nil)
+	})
+	c.call("geojson.LineString.UnmarshalBSON", n, func() {
+		err := c.recv("geojson.LineString", func() interface{} { return &geojson.LineString{} }).(*geojson.LineString).UnmarshalBSON(data)
+		c.mix(75, err == nil)
+	})
+	c.call("geojson.MultiLineString.UnmarshalBSON", n, func() {
+		err := c.recv("geojson.MultiLineString", func() interface{} { return &geojson.MultiLineString{} }).(*geojson.MultiLineString).UnmarshalBSON(data)
+		c.mix(76, err == nil)
+	})
+	c.call("geojson.Polygon.UnmarshalBSON", n, func() {
+		err := c.recv("geojson.Polygon", func() interface{} { return &geojson.Polygon{} }).(*geojson.Polygon).UnmarshalBSON(data)
+		c.mix(77, err == nil)
+	})
+	c.call("geojson.MultiPolygon.UnmarshalBSON", n, func() {
+		err := c.recv("geojson.MultiPolygon", func() interface{} { return &geojson.MultiPolygon{} }).(*geojson.MultiPolygon).UnmarshalBSON(data)
+		c.mix(78, err == nil)
+	})
 }
 
 func (c *ctx) decodeMVT(data []byte) {
